@@ -191,9 +191,47 @@ def perturb(g, rng, rel, ab):
     return kind, d, exp
 
 
+def fixed_pairs():
+    """pairs of valid graphs that differ in ONE semantic attribute carried by a value below the tolerances themselves: an
+    ancestor (or pulse source) whose proportion is 2^-43 < abs_tol is exchanged for another deme — the SET of ancestors
+    differs, so the graphs are not close whatever the tolerance says about the proportion"""
+    tiny = 2.0 ** -43
+    def g(anc, pulse_src=("Y",)):
+        return {"time_units": "generations",
+                "demes": [{"name": n, "epochs": [{"start_size": 100, "end_time": 0}]} for n in ("X", "Y", "Z")]
+                + [{"name": "C", "ancestors": ["X", anc], "proportions": [1 - tiny, tiny], "start_time": 50, "epochs": [{"start_size": 10}]}],
+                "pulses": [{"sources": ["X"] + list(pulse_src), "dest": "C", "time": 20, "proportions": [0.25, tiny]}]}
+    return [("ancestor_set_tiny_proportion", g("Y"), g("Z"), False), ("pulse_source_set_tiny_proportion", g("Y", ("Y",)), g("Y", ("Z",)), False),
+            ("identical_tiny_proportion", g("Y"), g("Y"), True)]
+
+
+def check_fixed_pairs(ctx):
+    for kind, da, db, exp in fixed_pairs():
+        a = demes.Graph.fromdict(da); b = demes.Graph.fromdict(db)
+        r = ctx.driver.batch([{"op": "isclose", "a": enc(a.asdict()), "b": enc(b.asdict())}])[0]
+        v = a.isclose(b)
+        ctx.count({"a": show(canon(a.asdict())), "b": show(canon(b.asdict())), "tol": [None, None]}, True, tags=[kind, f"close={v}"])
+        ctx.compared += 1
+        case = {"document": da, "perturbation": kind, "tolerances": [None, None], "b": show(canon(b.asdict())), "a": show(canon(a.asdict()))}
+        if "ok" not in r or r["ok"] != v:
+            ctx.disagreement("isclose", case, v, r)
+        if v != b.isclose(a):
+            ctx.violation("isclose is not symmetric", case)
+        if v != exp:
+            ctx.violation(f"isclose is {v} after perturbation '{kind}' (expected {exp})", case)
+        for x, y in ((a, b), (b, a)):
+            for dx, dy in zip(x.demes, y.demes):
+                if dx.isclose(dy) != (exp or dx.name != "C" or kind.startswith("pulse")):
+                    ctx.violation(f"Deme.isclose is {dx.isclose(dy)} after perturbation '{kind}' on deme {dx.name}", case)
+            for px, py in zip(x.pulses, y.pulses):
+                if px.isclose(py) != (exp or not kind.startswith("pulse")):
+                    ctx.violation(f"Pulse.isclose is {px.isclose(py)} after perturbation '{kind}'", case)
+
+
 def run(ctx):
     n = 160 if ctx.tier == "quick" else 3000
     done = 0
+    check_fixed_pairs(ctx)
     while done < n and ctx.time_left() > 10:
         batch = gen_valid_graphs(ctx, min(80, n - done))
         done += len(batch)
